@@ -64,6 +64,23 @@ type Backend struct {
 	perNonce map[string]int
 	models   []string
 	stopped  bool
+	inSvc    map[*Exchange]*Conn
+}
+
+// InFlightOpen counts proxied exchanges currently being served whose
+// connection is still open on the dialer's (Olla's) side.
+func (b *Backend) InFlightOpen() (int, string) {
+	b.mu.Lock()
+	defer b.mu.Unlock()
+	n := 0
+	who := ""
+	for ex, c := range b.inSvc {
+		if ex.Kind == "proxy" && !c.peer.IsClosed() && !ex.Completed {
+			n++
+			who += fmt.Sprintf(" %s(nonce=%s arrived=%s hdr=%v fault=%s)", exchangeID(ex), ex.Nonce, ex.ArrivedAt, ex.HeadersSent, ex.FaultFired)
+		}
+	}
+	return n, who
 }
 
 func phaseAt(ph []Phase, now time.Duration) *Phase {
@@ -186,6 +203,10 @@ func (b *Backend) serve(c *Conn) {
 			b.nProxy++
 		}
 		b.exch = append(b.exch, ex)
+		if b.inSvc == nil {
+			b.inSvc = map[*Exchange]*Conn{}
+		}
+		b.inSvc[ex] = c
 		var resp Resp
 		if ex.Kind == "proxy" {
 			resp = b.cfg.Default
@@ -256,6 +277,9 @@ func nonceFromBody(body []byte) string {
 
 func (b *Backend) finish(c *Conn, ex *Exchange) {
 	ex.DoneAt = b.sim.Now()
+	b.mu.Lock()
+	delete(b.inSvc, ex)
+	b.mu.Unlock()
 }
 
 // fire executes a fault; returns false when the connection is finished.
@@ -337,6 +361,13 @@ func (b *Backend) respond(c *Conn, ex *Exchange, r *Resp) bool {
 	if r.Kind == "echo" {
 		js, _ := json.Marshal(map[string]any{"backend": b.cfg.Name, "nonce": ex.Nonce, "path": ex.Path, "query": ex.RawQuery, "len": ex.BodyLen, "sha": ex.BodySHA, "method": ex.Method})
 		chunks = []Chunk{{Data: string(js)}}
+	}
+	if r.Kind == "llm" {
+		var ct string
+		chunks, ct = llmChunks(ex, tag, r)
+		if r.CType == "" {
+			r = &Resp{Kind: r.Kind, PreDelay: r.PreDelay, Status: r.Status, Headers: r.Headers, CType: ct, Framing: r.Framing, Fault: r.Fault, Gate: r.Gate, Tag: r.Tag, Chunks: chunks}
+		}
 	}
 	total := 0
 	for _, ch := range chunks {
@@ -422,6 +453,9 @@ func (b *Backend) respond(c *Conn, ex *Exchange, r *Resp) bool {
 			return false
 		}
 		ex.BodyWrote = append(ex.BodyWrote, p...)
+	}
+	if framing == "cl" {
+		ex.Completed = true // every announced byte is on the wire
 	}
 	if r.Fault != nil && r.Fault.At == "body" && r.Fault.K >= len(pieces) {
 		// fault after the last data piece but before the terminator
@@ -666,4 +700,47 @@ func (s *Sim) waitProgress(nonce string, n int, c *Conn) bool {
 			return false
 		}
 	}
+}
+
+// llmChunks renders a well-formed completion in the dialect the request asked
+// for: Anthropic Messages on */v1/messages, OpenAI chat otherwise; SSE when the
+// request body says "stream":true. The text carries the tag so it is attributable.
+func llmChunks(ex *Exchange, tag string, r *Resp) ([]Chunk, string) {
+	stream := bytes.Contains(ex.Body, []byte(`"stream":true`))
+	anth := strings.HasSuffix(ex.Path, "/v1/messages")
+	words := []string{"TEXT<" + tag + ">", " alpha", " beta", " gamma", " delta"}
+	if len(r.Chunks) > 0 && r.Chunks[0].Data != "" {
+		words = nil
+		for _, c := range r.Chunks {
+			words = append(words, c.Data)
+		}
+	}
+	text := strings.Join(words, "")
+	q := func(s string) string { b, _ := json.Marshal(s); return string(b) }
+	if anth {
+		if !stream {
+			return []Chunk{{Data: `{"id":"msg_` + tag + `","type":"message","role":"assistant","model":"m","content":[{"type":"text","text":` + q(text) + `}],"stop_reason":"end_turn","stop_sequence":null,"usage":{"input_tokens":3,"output_tokens":5}}`}}, "application/json"
+		}
+		var out []Chunk
+		out = append(out, Chunk{Data: "event: message_start\ndata: {\"type\":\"message_start\",\"message\":{\"id\":\"msg_" + tag + "\",\"type\":\"message\",\"role\":\"assistant\",\"model\":\"m\",\"content\":[],\"stop_reason\":null,\"usage\":{\"input_tokens\":3,\"output_tokens\":0}}}\n\n"})
+		out = append(out, Chunk{Data: "event: content_block_start\ndata: {\"type\":\"content_block_start\",\"index\":0,\"content_block\":{\"type\":\"text\",\"text\":\"\"}}\n\n"})
+		for _, w := range words {
+			out = append(out, Chunk{Data: "event: content_block_delta\ndata: {\"type\":\"content_block_delta\",\"index\":0,\"delta\":{\"type\":\"text_delta\",\"text\":" + q(w) + "}}\n\n"})
+		}
+		out = append(out, Chunk{Data: "event: content_block_stop\ndata: {\"type\":\"content_block_stop\",\"index\":0}\n\n"})
+		out = append(out, Chunk{Data: "event: message_delta\ndata: {\"type\":\"message_delta\",\"delta\":{\"stop_reason\":\"end_turn\"},\"usage\":{\"output_tokens\":5}}\n\n"})
+		out = append(out, Chunk{Data: "event: message_stop\ndata: {\"type\":\"message_stop\"}\n\n"})
+		return out, "text/event-stream"
+	}
+	if !stream {
+		return []Chunk{{Data: `{"id":"chatcmpl-` + tag + `","object":"chat.completion","created":1,"model":"m","choices":[{"index":0,"message":{"role":"assistant","content":` + q(text) + `},"finish_reason":"stop"}],"usage":{"prompt_tokens":3,"completion_tokens":5,"total_tokens":8}}`}}, "application/json"
+	}
+	var out []Chunk
+	out = append(out, Chunk{Data: `data: {"id":"chatcmpl-` + tag + `","object":"chat.completion.chunk","created":1,"model":"m","choices":[{"index":0,"delta":{"role":"assistant","content":""},"finish_reason":null}]}` + "\n\n"})
+	for _, w := range words {
+		out = append(out, Chunk{Data: `data: {"id":"chatcmpl-` + tag + `","object":"chat.completion.chunk","created":1,"model":"m","choices":[{"index":0,"delta":{"content":` + q(w) + `},"finish_reason":null}]}` + "\n\n"})
+	}
+	out = append(out, Chunk{Data: `data: {"id":"chatcmpl-` + tag + `","object":"chat.completion.chunk","created":1,"model":"m","choices":[{"index":0,"delta":{},"finish_reason":"stop"}],"usage":{"prompt_tokens":3,"completion_tokens":5,"total_tokens":8}}` + "\n\n"})
+	out = append(out, Chunk{Data: "data: [DONE]\n\n"})
+	return out, "text/event-stream"
 }
